@@ -2,11 +2,11 @@
 import common
 from common import cN, cnat, cbool, clist, copt, cpair
 
-PROOF_FILES = ['Proofs/Flatten.v']
+PROOF_FILES = ['Proofs/Flatten.v', 'Proofs/FlattenInv.v']
 ASSUMPTIONS = [
     'keys are modelled as UTF-8 byte strings; Python dicts as insertion-ordered association lists with pairwise different sibling keys',
     'State equality is order-insensitive mapping equality; flat states are compared as finite maps (lookup-equivalence)',
-    'not proved (correspondence only): flatten(unflatten(f)) = f for prefix-free flat maps, and the sortedness of to_flat_state',
+    'not proved (correspondence only): the sortedness of to_flat_state and the pure-dict conversions',
 ]
 KEYS = ['a', 'b', '0', '12', 'ab', 'a_b', 'kernel', 'bias', '', 'é', 'x0', 'params', 'A', '日本']
 SEPS = ['/', '.', '|', ':']
@@ -184,9 +184,32 @@ def run(chk):
       groups = [paths[:cut[0]], paths[cut[0]:cut[-1]]]
     scases.append({'states': states, 'groups': groups, 'diff_pair': diff_pair})
 
+  # flat dicts first (the other direction of "mutual inverses"): prefix-free non-empty paths in arbitrary insertion
+  # order, values a leaf or the empty-node sentinel
+  fcases = []
+  for i in range(6000 if thorough else 600):
+    paths = []
+    for _ in range(rng.randint(0, 7)):
+      p = [rng.choice(KEYS) for _ in range(rng.randint(1, 4))]
+      if rng.random() < 0.5 and paths:      # share a proper prefix with an earlier path
+        q = rng.choice(paths)
+        cut = rng.randint(0, len(q) - 1)
+        p = q[:cut] + p[:rng.randint(1, len(p))]
+      if not any(q[:len(p)] == p or p[:len(q)] == q for q in paths):
+        paths.append(p)
+    keys = {k for p in paths for k in p}
+    sep = None
+    if rng.random() < 0.3:
+      cands = [s for s in SEPS if not any(s in k for k in keys)]
+      sep = rng.choice(cands)
+      # joined keys must stay distinct and splittable: no empty key next to a separator ambiguity is possible here
+      # because the separators never occur in KEYS
+    fcases.append({'flat': [[p, ('EMPTY' if rng.random() < 0.2 else j + 1)] for j, p in enumerate(paths)], 'sep': sep})
+
   W = 8
   payloads = [{'dicts': cases[i::W]} for i in range(W)]
   payloads[0]['states'] = scases
+  payloads[1]['flats'] = fcases
   results = common.run_impl_parallel('impl_c16.py', payloads, workers=W)
   obs = [None] * len(cases)
   for k, r in enumerate(results):
@@ -265,6 +288,59 @@ Definition chk (c : case) : bool :=
     chk.violation('correspondence', 'Model/Flatten.v and flax flatten_dict/unflatten_dict disagree (C16_unflatten_flatten* no longer transfer)',
                   {'case': cases[i], 'observed': obs[i]['traverse_util']})
   chk.cov['traces_validated_against_impl'] = len(coq)
+
+  # ---------------- flat dicts first ----------------
+  fobs = results[1]['flats']
+  fcoq = []
+  for i, (c, o) in enumerate(zip(fcases, fobs)):
+    chk.count({'flat_first': c}, len(c['flat']) >= 2)
+    if i % 300 == 0:
+      chk.sample({'case': c, 'observed': o['traverse_util']})
+    want = sorted(([p if c['sep'] is None else c['sep'].join(p), v] for p, v in c['flat']), key=repr)
+    want_ne = [e for e in want if e[1] != 'EMPTY']
+    for api in ('traverse_util', 'nnx'):
+      r = o[api]
+      if 'err' in r:
+        chk.violation('oracle', '%s: unflatten / flatten raised %s on a prefix-free flat dict' % (api, r['err']), {'case': c})
+        continue
+      r = r['ok']
+      if sorted(r['back'], key=repr) != want:
+        chk.violation('oracle', '%s: flatten(unflatten(f), keep_empty_nodes=True) is not f (as a mapping)' % api,
+                      {'case': c, 'observed': r})
+      if sorted(r['back_noempty'], key=repr) != want_ne:
+        chk.violation('oracle', '%s: flatten(unflatten(f)) is not f minus its empty-node entries' % api, {'case': c, 'observed': r})
+    if 'ok' in o['traverse_util'] and 'ok' in o['nnx'] and o['traverse_util']['ok'] != o['nnx']['ok']:
+      chk.violation('oracle', 'unflatten_dict/flatten_dict and unflatten_mapping/flatten_mapping differ on a flat dict', {'case': c, 'observed': o})
+    r = o['traverse_util'].get('ok')
+    if r is None:
+      continue
+    if c['sep'] is None:
+      term = '(FTup %s %s %s)' % (clist([cpair(cpath(p), cfval(v)) for p, v in c['flat']]), ctree(r['tree']),
+                                  clist([cpair(cpath(p), cfval(v)) for p, v in r['back']]))
+    else:
+      term = '(FSep %s %s %s %s)' % (ckey(c['sep']), clist([cpair(ckey(c['sep'].join(p)), cfval(v)) for p, v in c['flat']]), ctree(r['tree']),
+                                     clist([cpair(ckey(k), cfval(v)) for k, v in r['back']]))
+    fcoq.append((i, term))
+  fhdr = HEADER + '''From Flaxm Require Import Proofs.FlattenInv.
+Inductive case :=
+| FTup (fl : list (path * fval)) (t : tree) (back : list (path * fval))
+| FSep (sep : key) (fl : list (key * fval)) (t : tree) (back : list (key * fval)).
+Definition chk (c : case) : bool :=
+  match c with
+  | FTup fl t back =>
+      pfreeb fl && option_beq tree_beq (unflatten fl) (Some t) &&
+      list_beq (pair_beq path_eqb fval_beq) (flatten true no_leaf t) back
+  | FSep sep fl t back =>
+      option_beq tree_beq (unflatten_sep sep fl) (Some t) &&
+      list_beq (pair_beq key_eqb fval_beq) (flatten_sep sep true no_leaf t) back
+  end.
+'''
+  bad = common.coq_mismatches('c16_flat', fhdr, [x[1] for x in fcoq], 'chk', shard=400)
+  for j in bad[:10]:
+    i = fcoq[j][0]
+    chk.violation('correspondence', 'Model/Flatten.v and flax unflatten_dict / flatten_dict disagree on a flat dict (C16_flatten_unflatten no longer transfers)',
+                  {'case': fcases[i], 'observed': fobs[i]['traverse_util']})
+  chk.cov['traces_validated_against_impl'] += len(fcoq)
 
   # ---------------- states ----------------
   scoq = []
